@@ -1843,11 +1843,17 @@ impl Melda {
             let data_r = self.data.read().expect("cannot_acquire_data_for_reading");
             //let merged = data_r.read_object(&winner)?;
             let merged = self.read_object_at_revision(uuid, &rt_r, &winner)?;
+            // Adopting a deletion means deleting the object, not storing the deletion marker as a value
+            let adopt_deletion = winner.is_deleted() && !is_array_descriptor(uuid);
             drop(winner);
             drop(rt_r);
             drop(data_r);
             drop(docs_r);
-            self.update_object(uuid, merged)?;
+            if adopt_deletion {
+                self.delete_object(uuid)?;
+            } else {
+                self.update_object(uuid, merged)?;
+            }
         }
         let docs_r = self
             .documents
